@@ -226,16 +226,6 @@ class Translator:
     t_List = t_Tuple
 
     def t_Call(self, n: ast.Call):
-        if self.call_hook is not None:
-            r = self.call_hook(n, self)
-            if r is not None:
-                return r
-        if not isinstance(n.func, (ast.Name, ast.Attribute)):
-            # call of a computed callee, e.g. REGISTER[key](args)
-            return sp.Function("call")(self.tr(n.func), *[self.tr(a) for a in n.args if not isinstance(a, ast.Starred)],
-                                       *[sp.Function("kw_" + k.arg)(self.tr(k.value)) for k in n.keywords if k.arg])
-        name = call_name(n)
-        d = dotted(n.func) or name or "?"
         if self.unroll_comps and any(isinstance(a, ast.Starred) for a in n.args):
             # f(*xs) with xs a literal / unrolled sequence: spell the arguments out
             new_args = []
@@ -246,6 +236,8 @@ class Translator:
                         v = self.tr(a.value)
                     except AnalysisError:
                         v = None
+                    if v is not None and v in getattr(self, "_arity", {}):
+                        v = sp.Tuple(*[sp.Function("item")(v, sp.Integer(i)) for i in range(self._arity[v])])
                     if isinstance(v, sp.Tuple):
                         changed = True
                         for i, x in enumerate(v):
@@ -256,7 +248,37 @@ class Translator:
                 new_args.append(a)
             if changed:
                 n = ast.copy_location(ast.Call(func=n.func, args=new_args, keywords=n.keywords), n)
-        args = [a for a in n.args if not isinstance(a, ast.Starred)]
+        if self.unroll_comps and any(k.arg is None for k in n.keywords):
+            # f(**d) with d a dict display built in the same function: spell the keywords out
+            new_kw = []
+            changed = False
+            for k in n.keywords:
+                if k.arg is None:
+                    try:
+                        v = self.tr(k.value)
+                    except AnalysisError:
+                        v = None
+                    if getattr(getattr(v, "func", None), "__name__", "") == "dict" and all(getattr(a.func, "__name__", "").startswith("kv_") for a in v.args):
+                        changed = True
+                        for i, a in enumerate(v.args):
+                            nm = f"<kwsplat{id(k)}_{i}>"
+                            self.env[nm] = a.args[0]
+                            new_kw.append(ast.keyword(arg=a.func.__name__[3:], value=ast.copy_location(ast.Name(id=nm, ctx=ast.Load()), k.value)))
+                        continue
+                new_kw.append(k)
+            if changed:
+                n = ast.copy_location(ast.Call(func=n.func, args=n.args, keywords=new_kw), n)
+        if self.call_hook is not None:
+            r = self.call_hook(n, self)
+            if r is not None:
+                return r
+        if not isinstance(n.func, (ast.Name, ast.Attribute)):
+            # call of a computed callee, e.g. REGISTER[key](args)
+            return sp.Function("call")(self.tr(n.func), *[self.tr(a) for a in n.args],
+                                       *[sp.Function("kw_" + k.arg)(self.tr(k.value)) for k in n.keywords if k.arg])
+        name = call_name(n)
+        d = dotted(n.func) or name or "?"
+        args = list(n.args)       # a starred argument that could not be spelled out stays visible as splat(x)
         A = lambda i: self.tr(args[i])  # noqa: E731
         npf = d.split(".")[-1] if d.split(".")[0] in ("np", "numpy", "math", "sp", "scipy") else None
         fn = npf or (name if isinstance(n.func, ast.Name) else None)
@@ -395,6 +417,8 @@ class Translator:
             for i, g in enumerate(n.generators):
                 it = self.tr(g.iter)
                 tv = sp.Symbol(f"_it{depth + i}")
+                if getattr(getattr(it, "func", None), "__name__", "") == "zip":
+                    self.__dict__.setdefault("_arity", {})[tv] = len(it.args)      # every element is a tuple of this many items
                 if isinstance(g.target, ast.Name):
                     self.env[g.target.id] = tv
                 elif isinstance(g.target, (ast.Tuple, ast.List)):
@@ -422,7 +446,11 @@ class Translator:
             if isinstance(k, ast.Constant) and isinstance(k.value, str):
                 items.append(sp.Function("kv_" + k.value)(self.tr(v)))
             elif k is None:
-                items.append(sp.Function("kv_splat")(self.tr(v)))
+                sv = self.tr(v)
+                if getattr(getattr(sv, "func", None), "__name__", "") == "dict":
+                    items.extend(sv.args)       # {**d, ...} with d a display: its items
+                else:
+                    items.append(sp.Function("kv_splat")(sv))
             else:
                 items.append(sp.Function("kv")(self.tr(k), self.tr(v)))
         return sp.Function("dict")(*items)
